@@ -21,6 +21,7 @@ import (
 	"github.com/sirupsen/logrus"
 
 	"free5gclib/aper"
+	"free5gclib/milenage"
 	"free5gclib/nas"
 	"free5gclib/nas/nasMessage"
 	"free5gclib/nas/nasTestpacket"
@@ -58,7 +59,20 @@ type c20Case struct {
 	Scripts [][]c20Op `json:"scripts"`
 }
 
-var c20Kinds = []string{"ngap-enc", "ngap-dec", "nas-plain", "protect", "unprotect", "encrypt", "mac", "derive", "ngap-enc-big", "ngap-dec-big", "alg-direct", "ngap-dec-lists", "aes-burst", "ngap-dec-later", "ngap-dec-cut", "tg-build", "ue-burst"}
+var c20Kinds = []string{"ngap-enc", "ngap-dec", "nas-plain", "protect", "unprotect", "encrypt", "mac", "derive", "ngap-enc-big", "ngap-dec-big", "alg-direct", "ngap-dec-lists", "aes-burst", "ngap-dec-later", "ngap-dec-cut", "tg-build", "ue-burst", "shared-inputs"}
+
+// Inputs that all UEs of an operator have in common and that every goroutine only READS: the subscription record made
+// from the configured K and OPc (each UE gets a by-value copy: the pointers inside are shared), and one set of f-function
+// arguments (TS 35.208 test set 1). A function that only reads its arguments can be handed the same memory by any
+// number of goroutines.
+var (
+	sharedK    = []byte{0x46, 0x5b, 0x5c, 0xe8, 0xb1, 0x99, 0xb4, 0x9f, 0xaa, 0x5f, 0x0a, 0x2e, 0xe2, 0x38, 0xa6, 0xbc}
+	sharedOPc  = []byte{0xcd, 0x63, 0xcb, 0x71, 0x95, 0x4a, 0x9f, 0x4e, 0x48, 0xa5, 0x99, 0x4e, 0x37, 0xa0, 0x2b, 0xaf}
+	sharedRAND = []byte{0x23, 0x55, 0x3c, 0xbe, 0x96, 0x37, 0xa8, 0x9d, 0x21, 0x8a, 0xe6, 0x4d, 0xae, 0x47, 0xbf, 0x35}
+	sharedSQN  = []byte{0xff, 0x9b, 0xb4, 0xd0, 0xb6, 0x07}
+	sharedAMF  = []byte{0xb9, 0xb9}
+	sharedSubs = tglib.GetAuthSubscription("465b5ce8b199b49faa5f0a2ee238a6bc", "cd63cb71954a9f4e48a5994e37a02baf", "")
+)
 
 func genC20(t *rapid.T) c20Case {
 	g := rapid.SampledFrom([]int{2, 2, 4, 8, 8, 16, 64}).Draw(t, "goroutines")
@@ -76,7 +90,7 @@ func genC20(t *rapid.T) c20Case {
 	if rapid.IntRange(0, 5).Draw(t, "storm") == 0 {
 		// every goroutine does the same kind of work for the whole case (64 decoders of list-heavy messages at once,
 		// 64 direct cipher calls at once, ...): load that adds up across goroutines
-		storm = rapid.SampledFrom([]string{"ngap-dec-lists", "ngap-dec-lists", "alg-direct", "ngap-dec", "ngap-enc", "aes-burst", "aes-burst", "derive", "ngap-dec-later", "ngap-dec-later", "ngap-dec-cut", "ngap-dec-cut", "tg-build", "tg-build", "ue-burst", "ue-burst", "ue-burst"}).Draw(t, "storm_kind")
+		storm = rapid.SampledFrom([]string{"ngap-dec-lists", "ngap-dec-lists", "alg-direct", "ngap-dec", "ngap-enc", "aes-burst", "aes-burst", "derive", "ngap-dec-later", "ngap-dec-later", "ngap-dec-cut", "ngap-dec-cut", "tg-build", "tg-build", "ue-burst", "ue-burst", "ue-burst", "shared-inputs", "shared-inputs"}).Draw(t, "storm_kind")
 		g = 64
 		maxOps = 6
 	}
@@ -523,6 +537,34 @@ func runOp(u *ueState, op c20Op) (res string) {
 			}
 		}
 		return "ok"
+	case "shared-inputs":
+		out := ""
+		for i := 0; i < 8; i++ {
+			switch (op.Seed + uint64(i)) % 4 {
+			case 0:
+				macA, macS := make([]byte, 8), make([]byte, 8)
+				err := milenage.F1(sharedOPc, sharedK, sharedRAND, sharedSQN, sharedAMF, macA, macS)
+				out += fmt.Sprintf("|f1:%x:%x:%v", macA, macS, err)
+			case 1:
+				res, ck, ik, ak, aks := make([]byte, 8), make([]byte, 16), make([]byte, 16), make([]byte, 6), make([]byte, 6)
+				err := milenage.F2345(sharedOPc, sharedK, sharedRAND, res, ck, ik, ak, aks)
+				out += fmt.Sprintf("|f2345:%x:%x:%x:%x:%x:%v", res, ck, ik, ak, aks, err)
+			case 2:
+				autn, ik, ck, ak, res := make([]byte, 16), make([]byte, 16), make([]byte, 16), make([]byte, 6), make([]byte, 8)
+				rl := uint(8)
+				milenage.MilenageGenerate(sharedOPc, sharedAMF, sharedK, sharedSQN, sharedRAND, autn, ik, ck, ak, res, &rl)
+				out += fmt.Sprintf("|gen:%x:%x", autn, res)
+			default:
+				// the UE's own context, its own by-value copy of the operator's subscription record
+				ue := tglib.NewRanUeContext(u.ue.Supi, int64(u.idx+1), uint8(op.Alg), 2)
+				subs := sharedSubs
+				var autn [16]byte
+				copy(autn[:], r.bytes(16))
+				rs := ue.DeriveRESstarAndSetKey(subs, autn, sharedRAND, "5G:mnc093.mcc208.3gppnetwork.org", "93", "208")
+				out += fmt.Sprintf("|derive:%x:%x", rs, ue.Kamf)
+			}
+		}
+		return out
 	case "ue-burst":
 		// what one UE does for minutes on end: message after message under ITS OWN two keys (the same keys call after
 		// call, unlike aes-burst), while the other goroutines do the same under theirs
